@@ -9,23 +9,23 @@ Import ListNotations.
    fingerprint and the normalised URL of the request that was sent *)
 Theorem C04_gate : forall ip6 c evs,
   Spec.C04.gate c (Spec.C04.expected_url ip6 (stream evs)) evs
-    (run ip6 (fun _ => c_hres c) (c_mw c) (c_upload c) (c_ip c) (c_fp c) init evs) [] false = true.
+    (run ip6 (fun _ => c_hres c) (c_mw c) (c_upload c) (c_upfail c) (c_ip c) (c_fp c) init evs) [] false = true.
 Proof. exact Server_proofs.gate. Qed.
 Print Assumptions C04_gate.
 
 (* with a chain configured, Gemini and Titan alike: no invocation unless some consulted task
    was answered with allow *)
-Theorem C04_no_invocation_without_allow : forall ip6 handler up ip fp evs,
+Theorem C04_no_invocation_without_allow : forall ip6 handler up ucf ip fp evs,
   (forall i t, ~ In (EDone i (OMw true t)) evs) ->
-  existsb is_invocation (flat (run ip6 handler true up ip fp init evs)) = false.
+  existsb is_invocation (flat (run ip6 handler true up ucf ip fp init evs)) = false.
 Proof. exact Server_proofs.no_invocation_without_allow. Qed.
 Print Assumptions C04_no_invocation_without_allow.
 
 (* a refusing or raising chain: no invocation, and the client receives the refusal *)
 Theorem C04_refusal : forall ip6 c evs, c_mw c = true ->
-  valid_reads evs (run ip6 (fun _ => c_hres c) (c_mw c) (c_upload c) (c_ip c) (c_fp c) init evs) false = true ->
+  valid_reads evs (run ip6 (fun _ => c_hres c) (c_mw c) (c_upload c) (c_upfail c) (c_ip c) (c_fp c) init evs) false = true ->
   Spec.C04.refusal c evs
-    (run ip6 (fun _ => c_hres c) (c_mw c) (c_upload c) (c_ip c) (c_fp c) init evs) = true.
+    (run ip6 (fun _ => c_hres c) (c_mw c) (c_upload c) (c_upfail c) (c_ip c) (c_fp c) init evs) = true.
 Proof. exact Server_proofs.refusal. Qed.
 Print Assumptions C04_refusal.
 
@@ -47,24 +47,24 @@ Theorem C04_gate_on_code : forall reenc : str -> str,
   EquivServerLoop.reenc_ok reenc ->
   forall ip6 c evs,
   Spec.C04.gate c (Spec.C04.expected_url ip6 (stream evs)) evs
-    (gen_run reenc ip6 (fun _ => c_hres c) (c_mw c) (c_upload c) (c_ip c) (c_fp c) init evs) [] false = true.
+    (gen_run reenc ip6 (fun _ => c_hres c) (c_mw c) (c_upload c) (c_upfail c) (c_ip c) (c_fp c) init evs) [] false = true.
 Proof. exact Server_on_code.gate_on_code. Qed.
 Print Assumptions C04_gate_on_code.
 
 Theorem C04_no_invocation_without_allow_on_code : forall reenc : str -> str,
   EquivServerLoop.reenc_ok reenc ->
-  forall ip6 handler up ip fp evs,
+  forall ip6 handler up ucf ip fp evs,
   (forall i t, ~ In (EDone i (OMw true t)) evs) ->
-  existsb is_invocation (flat (gen_run reenc ip6 handler true up ip fp init evs)) = false.
+  existsb is_invocation (flat (gen_run reenc ip6 handler true up ucf ip fp init evs)) = false.
 Proof. exact Server_on_code.no_invocation_without_allow_on_code. Qed.
 Print Assumptions C04_no_invocation_without_allow_on_code.
 
 Theorem C04_refusal_on_code : forall reenc : str -> str,
   EquivServerLoop.reenc_ok reenc ->
   forall ip6 c evs, c_mw c = true ->
-  valid_reads evs (gen_run reenc ip6 (fun _ => c_hres c) (c_mw c) (c_upload c) (c_ip c) (c_fp c) init evs) false = true ->
+  valid_reads evs (gen_run reenc ip6 (fun _ => c_hres c) (c_mw c) (c_upload c) (c_upfail c) (c_ip c) (c_fp c) init evs) false = true ->
   Spec.C04.refusal c evs
-    (gen_run reenc ip6 (fun _ => c_hres c) (c_mw c) (c_upload c) (c_ip c) (c_fp c) init evs) = true.
+    (gen_run reenc ip6 (fun _ => c_hres c) (c_mw c) (c_upload c) (c_upfail c) (c_ip c) (c_fp c) init evs) = true.
 Proof. exact Server_on_code.refusal_on_code. Qed.
 Print Assumptions C04_refusal_on_code.
 
